@@ -33,6 +33,19 @@ check_case = e1common.make_check(e1oracles.oracle_c09)
 def run(ctx):
     names = corpus.corpus_names(ctx.tier)
     cases = list(corpus.single_request_cases(names, ("defer",), decisions=("resume",)))
+    # a suspension between the deferred request and the checkpoint it is waiting for must not lose the request
+    for name in names:
+        n = corpus.n_handles(name)
+        for k in range(0, n, 2):
+            for d in (1, 4):
+                c = corpus.base_case(name)
+                c["stages"] = [
+                    {"do": "call", "inj": [{"at": k, "do": "defer"}, {"at": k + d, "do": "suspend", "release_after": 0.3}]},
+                    {"do": "resume"},
+                    {"do": "resume"},
+                ]
+                c["probe"] = True
+                cases.append(c)
     ctx.sweep(cases, check_case)
     ctx.extra["sweep_cases"] = len(cases)
     e1common.generated(ctx, check_case, n=ctx.pick(1000, 30000), profile="defer")
